@@ -30,26 +30,36 @@ namespace nmtools::view
     {
         // TODO: propagate error handling
         auto dim = unwrap(::nmtools::dim<true>(array));
-        // TODO: error handling
-        auto m_axis  = [&](){
-            if constexpr (is_none_v<axis_t>) {
-                return axis;
+        // the computation proper, for an axis that is known to be valid (normalized) or None
+        auto var_impl = [&](const auto& m_axis){
+            auto input = view::aliased(array);
+            // must keep dimension to properly subtract
+            auto a = view::mean(input,m_axis,dtype,/*keepdims=*/True);
+            auto b = view::subtract(input, a);
+            auto c = view::fabs(b);
+            auto d = view::square(c);
+            // no reason to start from other initial value
+            auto e = view::sum(d,m_axis,dtype,/*initial=*/None,keepdims);
+            // TODO: error handling
+            auto N = detail::mean_divisor(::nmtools::shape(unwrap(input)),m_axis);
+            return view::divide(e,N-ddof);
+        };
+        if constexpr (is_none_v<axis_t>) {
+            return var_impl(axis);
+        } else {
+            auto m_axis = index::normalize_axis(axis,unwrap(dim));
+            using m_axis_t = decltype(m_axis);
+            using result_t = decltype(var_impl(unwrap(m_axis)));
+            if constexpr (meta::is_maybe_v<m_axis_t> && meta::is_maybe_v<result_t>) {
+                // an axis outside [-dim,dim) has no result: report it instead of unwrapping an empty optional
+                return (has_value(m_axis)
+                    ? var_impl(unwrap(m_axis))
+                    : result_t{meta::Nothing}
+                );
             } else {
-                return unwrap(index::normalize_axis(axis,unwrap(dim)));
+                return var_impl(unwrap(m_axis));
             }
-        }();
-
-        auto input = view::aliased(array);
-        // must keep dimension to properly subtract
-        auto a = view::mean(input,m_axis,dtype,/*keepdims=*/True);
-        auto b = view::subtract(input, a);
-        auto c = view::fabs(b);
-        auto d = view::square(c);
-        // no reason to start from other initial value
-        auto e = view::sum(d,m_axis,dtype,/*initial=*/None,keepdims);
-        // TODO: error handling
-        auto N = detail::mean_divisor(::nmtools::shape(unwrap(input)),m_axis);
-        return view::divide(e,N-ddof);
+        }
     } // var
 } // namespace nmtools::view
 
